@@ -1355,6 +1355,7 @@ fn resolve_names_func_helper_decl_only(
     args: &[ArgMaybeAnnotated],
     ret_type: &Option<Rc<Type>>,
 ) {
+    resolve_names_default_values(ctx, symbol_table, args);
     for arg in args {
         resolve_names_fn_arg(symbol_table, &arg.name);
         if let Some(ty_annot) = &arg.ty {
@@ -1374,6 +1375,7 @@ fn resolve_names_func_helper(
     body: &Rc<Expr>,
     ret_type: &Option<Rc<Type>>,
 ) {
+    resolve_names_default_values(ctx, symbol_table, args);
     for arg in args {
         resolve_names_fn_arg(symbol_table, &arg.name);
         if let Some(ty_annot) = &arg.ty {
@@ -1385,6 +1387,19 @@ fn resolve_names_func_helper(
 
     if let Some(ty_annot) = ret_type {
         resolve_names_typ(ctx, symbol_table, ty_annot, true);
+    }
+}
+
+// A default value is evaluated by the caller, so it is resolved before the parameters are in scope.
+fn resolve_names_default_values(
+    ctx: &mut StaticsContext,
+    symbol_table: &SymbolTable,
+    args: &[ArgMaybeAnnotated],
+) {
+    for arg in args {
+        if let Some(default_val) = &arg.default_val {
+            resolve_names_expr(ctx, symbol_table, default_val);
+        }
     }
 }
 
